@@ -86,7 +86,7 @@ Print Assumptions C06_pn_disproven_attractor_partial.
 
 (* 5. dfpn_proven_sound, for DFPNSolver.Prove as modelled by Dfpn.prove (fresh solver, any table size, any fuel, attacker aw,
    whoever is to move), for a set Sp of positions that contains the root and is closed under the generated legal moves
-   (e.g. everything reachable from the root), under explicit hypotheses on Sp:
+   of its live positions (e.g. everything reachable from the root in the game), under explicit hypotheses on Sp:
      boards up to 8x8; NoCollisionOn Sp (positions of Sp with equal hash have the same value, side to move and end of game);
      no position of Sp has hash 0 (the key of an empty slot); a live position has a move; C19 (an immediate threat of the
      attacker reported by CountThreats is a forced win).
@@ -95,7 +95,7 @@ Print Assumptions C06_pn_disproven_attractor_partial.
    reused over several positions with the same attacker. *)
 Theorem C06_dfpn_proven_sound :
   forall (basis : list N) (aw : bool) (Sp : position -> Prop),
-    (forall p m q, Sp p -> In m (all_moves p) -> dmv basis p m = Ok q -> Sp q) ->
+    (forall p m q, Sp p -> terminal aw p = None -> In m (all_moves p) -> dmv basis p m = Ok q -> Sp q) ->
     (forall p, Sp p -> size p <= 8) ->
     (forall p q, Sp p -> Sp q -> hash_of p = hash_of q ->
        (W basis aw p <-> W basis aw q) /\ to_move_white p = to_move_white q /\ terminal aw p = terminal aw q) ->
